@@ -177,16 +177,22 @@ class Cat(Reduction):
         return self.chunk_kwargs
 
     @staticmethod
-    def reduction_chunk(ser, *args, **kwargs):
-        return ser.str.cat(*args, **kwargs)
+    def reduction_chunk(ser, sep=None, na_rep=None):
+        if na_rep is None:
+            ser = ser.dropna()
+        # A partition with nothing to concatenate has to stay distinguishable
+        # from one that yields "", which is still joined with a separator
+        return ser.str.cat(sep=sep, na_rep=na_rep) if len(ser) else None
 
     @staticmethod
-    def reduction_combine(ser, *args, **kwargs):
-        return Cat.reduction_chunk(ser, *args, **kwargs)
+    def reduction_combine(ser, sep=None, na_rep=None):
+        # Missing values stand for partitions without content, not for na_rep
+        return Cat.reduction_chunk(ser, sep=sep)
 
     @staticmethod
-    def reduction_aggregate(ser, *args, **kwargs):
-        return Cat.reduction_chunk(ser, *args, **kwargs)
+    def reduction_aggregate(ser, sep=None, na_rep=None):
+        result = Cat.reduction_chunk(ser, sep=sep)
+        return "" if result is None else result
 
 
 class SplitMap(FunctionMap):
